@@ -7,6 +7,18 @@ HERE = os.path.dirname(os.path.dirname(os.path.abspath(__file__)))
 ALL = ["C%02d" % i for i in range(1, 21)]
 
 CLAIMED = {
+    "C12": dict(
+        category="model_checking",
+        text=("Oracle_FieldProps.tla is an explicit reference interpreter of the keyword operations over arrays on all "
+              "cells with per-cell status; TLC evaluates it on every generated program (random grids, ACTNUM masks, boxes, "
+              "region sets, defaulted entries, keyword defaults, input-error situations) and the real EclipseState built "
+              "from the rendered deck is compared array by array, cell by cell, including defaulted flags and the "
+              "error/no-error outcome; a quarter of the programs is repeated with all cells active."),
+        design_ref="DESIGN.md section 5, C12",
+        note=("Trusted: TLC as oracle, the deck renderer.  Integer-valued data in dimensionless keywords; global-storage "
+              "arrays, top-layer distribution, EDIT multipliers and SCHEDULE updates are outside the modelled subset."),
+        technique="TLA+ reference interpreter run by TLC as oracle; replay of every program into the real EclipseState",
+    ),
     "C16": dict(
         category="model_checking",
         text=("DualNumbers.tla states the differentiation rules over terms (exact rationals, named real functions); TLC "
